@@ -40,15 +40,18 @@ PROP = dict(
         "(C09's file abstraction; the byte-level round trip is C11) and the step-model assumptions of C10. The harness checks persistence on "
         "file-backed traces, waiting for the background writer before closing (the in-flight-writer schedule is C10's F12)",
         "candidate window = merged lookup of the range (C07); commit of a chosen phrase yields the single interval (C04)",
-        "F07 (bare public estimate() panics when the stored time is in the future or freq < 10 in the long-gap band) is recorded "
-        "against the function: estimate_no_panic gives the exact precondition, the model predicts every panic of the grid "
-        "(generator_stats.est_panics_predicted_F07); unreachable from the editor (no timestamp is passed => short band only)",
-        "frequencies within MAX_USER_FREQ = 99 999 999 (learning clamps there; a larger system frequency would be lowered to it)",
+        "F07 (bare public estimate() panics when freq < 10 or freq < orig_freq in the long-gap band, or orig_freq > max_freq in a rising band) "
+        "is recorded against the function: estimate_no_panic gives the exact precondition, the model predicts every panic of the grid "
+        "(generator_stats.est_panics_predicted_F07); unreachable from the editor (no timestamp is passed => short band only). The stored-time-"
+        "in-the-future half of F07 and F40 (freq + delta overflowing u32) are repaired in the repository (saturating_sub / saturating_add, "
+        "pinned by the translator): estimate_future_time, estimate_editor_path and commit_never_panics hold for every u32 frequency",
+        "frequencies within MAX_USER_FREQ = 99 999 999 for the monotonicity clauses only (learning clamps there; a larger system frequency "
+        "would be lowered to it); no-panic needs no bound",
     ],
 )
 
 MANIFEST = dict(
-    text="Lean 4 theorems (Chewing/Props/C08.lean) over an executable model of LaxUserFreqEstimate::estimate (u32/u64 guards = panics), "
+    text="Lean 4 theorems (Chewing/Props/C08.lean) over an executable model of LaxUserFreqEstimate::estimate (u32 guards = panics, saturating add/sub as coded), "
          "learn_phrase, auto_learn, commit's learning effect, the Layered merge, find_best_phrase and trim_paths; constants, break-word list "
          "and score weights regenerated from src/editor/estimate.rs, src/editor/mod.rs, src/conversion/chewing.rs on every run. Proved for all "
          "dictionaries/histories: no panic and no lowered frequency on the commit path (bounded frequencies), every learn unit live afterwards "
